@@ -197,7 +197,12 @@ def check_grammar(stmts, ledger, r, budget, acc, origin, walks=()):
             acc.count('excluded: ' + e)
         return
     vocab = sorted({x[1] for st in stmts for x in gast.walk(st[2] if st[0] == 'call' else st[3]) if x[0] == 'lit'})
-    queries = [{'words': ['cmd'] + list(w), 'cword': len(w), 'wb': r.choice([bashrun.wordbreaks(), ''])} for w in walks]
+    queries = []
+    for w in walks:
+        wb = r.choice([bashrun.wordbreaks(), ''])
+        if isinstance(w, tuple):        # (words, COMP_WORDBREAKS) given by the family
+            w, wb = w
+        queries.append({'words': ['cmd'] + list(w), 'cword': len(w), 'wb': wb})
     queries += make_queries(M, r, max(0, budget - len(queries)), vocab)
     if not queries:
         return
@@ -382,6 +387,34 @@ def shared_definition_grammar(r, ledger):
     return stmts
 
 
+def repeated_break_characters_grammar(r):
+    """Words in which a COMP_WORDBREAKS character occurs more than once (`--opt=uid=0`, `a:b:c`): with the default
+    COMP_WORDBREAKS bash keeps the text after the *last* such character.  -> (stmts, walks)"""
+    from ..gast import lit, seq, alt, call
+    wbd = bashrun.wordbreaks()
+    k = r.random()
+    if k < 0.4:
+        w = ('word', (lit('--opt='), alt(('word', (lit('uid='), alt(lit('0'), lit('1000')))), lit('ro'))))
+        cur = ['--opt=uid=', '--opt=uid=1', '--opt=', '--opt=r', '--opt=u']
+        full = '--opt=uid=1000'
+    elif k < 0.7:
+        w = ('word', (lit('a:'), lit('b:'), alt(lit('cat'), lit('dog'))))
+        cur = ['a:b:', 'a:b:c', 'a:', 'a']
+        full = 'a:b:dog'
+    else:
+        w = ('word', (lit('k=v,'), lit('k2='), alt(lit('x1'), lit('y2'))))
+        cur = ['k=v,k2=', 'k=v,k2=x', 'k=v,', 'k=']
+        full = 'k=v,k2=y2'
+    stmts = [call('cmd', seq(w, lit('tail')))]
+    walks = []
+    for c in cur:
+        walks.append(([c], wbd))
+        walks.append(([c], ''))
+    walks.append(([full, ''], wbd))
+    walks.append(([full, 't'], wbd))
+    return stmts, walks
+
+
 def same_text_at_several_points_grammar(r):
     """One literal text expected at several points with a different description (or none) at each: one text,
     several literal ids; each occurrence must be read as the literal expected *there*.  -> (stmts, walks)"""
@@ -436,6 +469,10 @@ def run_job(job, acc):
             stmts = shared_definition_grammar(r, ledger)
             acc.count('shared_definition_grammars')
             check_grammar(stmts, ledger, r, budget // 2, acc, 'definition shared by || branches seed=%d #%d' % (s, i))
+    if s % 8 == 2:
+        stmts, walks = repeated_break_characters_grammar(r)
+        acc.count('repeated_break_character_grammars')
+        check_grammar(stmts, CmdLedger(), r, len(walks), acc, 'repeated word-break characters seed=%d' % s, walks=walks)
     if s % 4 == 3:
         stmts, walks = same_text_at_several_points_grammar(r)
         acc.count('same_text_at_several_points_grammars')
